@@ -121,7 +121,12 @@ def _hw_worker(job):
     try:
         from amaranth.hdl import Period
         from amaranth.sim import Simulator
-        p = mk_algo(t)(dw).create()
+        # one Parameters object is legitimately used several times (create(), residue(), algorithm):
+        # every use must see the same algorithm, so exercise 0-2 earlier uses before the one observed
+        pp = mk_algo(t)(dw)
+        for _k in range(len(script) % 3):
+            pp.residue(); pp.create(); pp.algorithm
+        p = pp.create()
         sim = Simulator(p)
         sim.add_clock(Period(MHz=1))
         out = []
@@ -378,7 +383,10 @@ def run(chk):
     resps = chk.driver.ask([f"(residue {pstr(t)})" for _tag, t in res_cases])
     for (tag, t), resp in zip(res_cases, resps):
         d = common.kv(resp)
-        impl = str(mk_algo(t)(rng.choice([1, 8, t[0]])).residue())
+        pp = mk_algo(t)(rng.choice([1, 8, t[0]]))
+        if rng.random() < 0.5:
+            pp.create(); pp.residue()          # an earlier use of the same Parameters object
+        impl = str(pp.residue())
         chk.count(1)
         chk.distinct(("res", t))
         if tag.startswith("cat:") and tag[4:] in by_name and impl != str(by_name[tag[4:]]["residue"]):
